@@ -310,6 +310,7 @@ class C11:
                 flags += ["-fork=12", "-ignore_crashes=1", "-ignore_timeouts=1", "-ignore_ooms=1"]
             env = dict(os.environ)
             env["PYTHONHASHSEED"] = "0"
+            env["VF_SCRATCH"] = ctx.scratch
             try:
                 p = subprocess.run([script, corpus, art] + flags, cwd=ctx.scratch, env=env, stdout=subprocess.PIPE,
                                    stderr=subprocess.STDOUT, timeout=secs * 3 + 120)
